@@ -49,17 +49,18 @@ type EntryReport struct {
 }
 
 type LabelStat struct {
-	Kind      string
-	Label     string
-	Holds     int // unsat answers (paths on which the assertion was proved)
-	Trivial   int // concretely true on the path (no query needed)
-	Violated  int
-	Unknown   int
-	Witnessed int
-	FirstBad  *Obligation
-	Bad       []*Obligation // up to 8 violating paths with their models
-	Witness   *Obligation
-	Pos       string
+	Kind        string
+	Label       string
+	Holds       int // unsat answers (paths on which the assertion was proved)
+	Trivial     int // concretely true on the path (no query needed)
+	Violated    int
+	Unknown     int
+	Witnessed   int
+	FirstBad    *Obligation
+	Bad         []*Obligation // up to 8 violating paths with their models
+	Witness     *Obligation
+	witnessPath []int
+	Pos         string
 }
 
 func (p *Program) Explore(entry *ssa.Function, cfg ExploreCfg) *EntryReport {
@@ -167,9 +168,10 @@ func (p *Program) Explore(entry *ssa.Function, cfg ExploreCfg) *EntryReport {
 					ls.Unknown++
 				case "witnessed":
 					ls.Witnessed++
-					if ls.Witness == nil && ob.Kind == "reach" {
+					if ob.Kind == "reach" && (ls.Witness == nil || lexLess(res.Decisions, ls.witnessPath)) {
 						o := ob
-						ls.Witness = &o // first witness model
+						ls.Witness = &o // the witness of the lexicographically first path (independent of worker timing)
+						ls.witnessPath = append([]int(nil), res.Decisions...)
 					}
 				}
 			}
@@ -260,4 +262,13 @@ func (m *Machine) runPath(entry *ssa.Function, rep *EntryReport, mu *sync.Mutex)
 	}
 	res.Outcome = "ok"
 	return res
+}
+
+func lexLess(a, b []int) bool {
+	for i := 0; i < len(a) && i < len(b); i++ {
+		if a[i] != b[i] {
+			return a[i] < b[i]
+		}
+	}
+	return len(a) < len(b)
 }
